@@ -3,6 +3,7 @@
 # /repo and the checks run from a scratch copy of /verif whose shadow manifests point at that worktree,
 # so that /repo and /verif/sim/target stay usable meanwhile. One line per patch.
 #   ./mutant_iso.sh <slot> <patch.diff>... [-- ID ...]      (slot: a name; slots can run side by side)
+# VERIF_SRC=<dir>: take the machinery from another checkout of /verif (e.g. an earlier commit).
 # The final regression of record (regress_seeded.sh) still applies every patch to /repo itself.
 SLOT="$1"; shift
 PATCHES=""; IDS=""
@@ -16,7 +17,7 @@ mkdir -p "$BASE"
 [ -d "$R" ] || git -C /repo worktree add --detach "$R" HEAD >/dev/null 2>&1 || exit 2
 git -C "$R" checkout -q --detach "$(git -C /repo rev-parse HEAD)" && git -C "$R" checkout -- . && git -C "$R" clean -fdq
 mkdir -p "$V"
-rsync -a --delete --exclude /sim/target --exclude /.git --exclude /replays --exclude /seeded --exclude /results --exclude /scratch /verif/ "$V"/
+rsync -a --delete --exclude /sim/target --exclude /.git --exclude /replays --exclude /seeded --exclude /results --exclude /scratch "${VERIF_SRC:-/verif}"/ "$V"/
 sed -i "s#path = \"/repo\"#path = \"$R\"#" "$V/sim/Cargo.toml" "$V/sim/miri/Cargo.toml"
 for d in $PATCHES; do
     n=$(basename "$(dirname "$d")")-$(basename "$d" .diff)
